@@ -12,6 +12,9 @@ import buf
 
 type R = {A: int; B: string}
 
+// never used: its fields contain R's and its name sorts before R - an unqualified {A=..; B=..} is still an R
+type Pq = {A: int; B: string; C: bool}
+
 type G<T> = {V: T; Vs: []T}
 
 type Tq = {Fb: Tr; Fn: int}
